@@ -163,12 +163,15 @@ DB_ASSUME = ["sequential driver: one goroutine issues all calls (interleavings a
              "LPM Get/List are judged for full-length keys and stored prefixes"]
 
 
-def _db_prop(prop, mode, nq, nt, rule, nontrivial, extra_modes=()):
+def _db_prop(prop, mode, nq, nt, rule, nontrivial, extra_modes=(), tlc_gen=False):
     def fn(tier, seed, rng):
         import db_gen
         quick = tier == "quick"
         design = [design_check("MCDB", "MCDBQuick.cfg" if quick else "MCDB.cfg")]
         fams = [Family(mode, "db", "DBTrace", db_gen.generate(mode, nq if quick else nt, seed * 31 + int(prop[1:])))]
+        if tlc_gen:
+            s1, g1 = tlc_scripts("GenDB", "GenDB.cfg" if quick else "GenDBDeep.cfg", rng, 3000 if quick else 60000)
+            fams.append(Family("tlc", "db", "DBTrace", s1, g1))
         for (m2, q2, t2) in extra_modes:
             if m2 == "sched":
                 fams += sched_families(tier, seed, rng, prop, q2, t2, q2, t2)
@@ -385,17 +388,17 @@ PROPS = {
                     "Insert/InsertWatch/Modify/Delete/DeleteAll/CompareAndSwap/CompareAndDelete with guards "
                     "{current, stale, future}, missing and present objects, tables not held, finished transactions; "
                     "replies, errors and the state after rejected operations are compared; non-trivial = >= 2 writes",
-                    _nt_write, extra_modes=(("kf_n", 20, 100),)),
+                    _nt_write, extra_modes=(("kf_n", 20, 100),), tlc_gen=True),
     "C04": _db_prop("C04", "c04", 250, 5000,
                     "complete query battery (Get/List/Prefix/LowerBound/All/NumObjects/ByRevision on primary, unique, "
                     "multi-key, LPM unique/non-unique indexes; keys empty, prefixes of one another, 0x00/0x01/0xff) on "
                     "fresh snapshots and inside write transactions after key-set changing updates; non-trivial = >= 2 writes",
-                    _nt_write, extra_modes=(("lpmshared", 100, 2000),)),
+                    _nt_write, extra_modes=(("lpmshared", 100, 2000),), tlc_gen=True),
     "C06": _db_prop("C06", "c06", 300, 6000,
                     "watch channels of every query kind on every index kind taken from fresh snapshots before each "
                     "transaction plus InsertWatch; channel bits sampled at hand-out and after every commit/abort; "
                     "non-trivial = a tracked channel exists when a transaction ends", _nt_watch,
-                    extra_modes=(("c07", 100, 2000), ("kf_l", 20, 100), ("c06inner", 150, 3000), ("sched", 120, 2500))),
+                    extra_modes=(("c07", 100, 2000), ("kf_l", 20, 100), ("c06inner", 150, 3000), ("sched", 120, 2500)), tlc_gen=True),
     "C07": _db_prop("C07", "c07", 400, 8000,
                     "up to 4 change iterators created at arbitrary points (also in aborted transactions); Next with "
                     "fresh/retained snapshots and write transactions holding uncommitted changes of the table, full and "
@@ -407,7 +410,7 @@ PROPS = {
                     extra_modes=(("gcwindow", 200, 4000), ("sched", 100, 2000))),
     "C09": _db_prop("C09", "c09", 300, 6000,
                     "as C03 plus Table.Revision on every source and ByRevision queries for bounds 0..8; non-trivial = "
-                    ">= 2 writes", _nt_write),
+                    ">= 2 writes", _nt_write, tlc_gen=True),
     "C19": _db_prop("C19", "c19", 400, 8000,
                     "up to 3 initializers registered/completed across committed and aborted transactions mixed with "
                     "writes; Initialized/PendingInitializers on every snapshot and transaction, init channel bits after "
